@@ -57,17 +57,45 @@ def text_cfg():
     return [list(c) for c in _TEXT_CFG]
 
 
-def doc_values(rng, k, total, e2e):
-    """the value tokens of one `doc` line for an index of kind k"""
+def doc_values(rng, k, total, e2e, dist=None):
+    """the value tokens of one `doc` line for an index of kind k (dist: the value distribution of a large /
+    wide catalog, see `Dist`)"""
     if k == "field":
-        return [rng.randrange(10)]
+        return [dist.pick(rng, "field") if dist else rng.randrange(10)]
     if k == "text":
         n = rng.randrange(1, 5) if total else rng.randrange(0, 5)
         return [rng.randrange(len(WORDS)) for _ in range(n)]
     if k == "facet" and e2e:
         hi = FACET_MATCHED if total or rng.random() < 0.8 else len(FACET_PATHS)
         return sorted(set(rng.randrange(hi) for _ in range(rng.randrange(1, 4))))
+    if dist and k == "keyword":
+        return sorted(set(dist.pick(rng, "keyword") for _ in range(rng.randrange(1, 4))))
     return sorted(set(rng.randrange(6) for _ in range(rng.randrange(1, 4))))
+
+
+class Dist(object):
+    """value distribution of a large / wide catalog: `n[kind]` distinct values; with skew the x-th most frequent
+    value is perm[x] and frequencies fall off cubically (40 values, 400 documents: the most frequent value has
+    ~ 115 documents, each of the 10 rarest ~ 3), so that the operands of one query differ in size by far more
+    than the thresholds of size-dependent code paths (x 32, x 64)"""
+
+    def __init__(self, rng, nfield, nkw, skew):
+        self.n = {"field": nfield, "keyword": nkw}
+        self.skew = skew
+        self.perm = {k: rng.sample(range(n), n) for k, n in self.n.items()}
+
+    def pick(self, rng, kind):
+        n = self.n[kind]
+        if not self.skew:
+            return rng.randrange(n)
+        return self.perm[kind][min(n - 1, int(n * rng.random() ** 3))]
+
+    def frequent(self, rng, kind):
+        return self.perm[kind][rng.randrange(min(3, self.n[kind]))]
+
+    def rare(self, rng, kind):
+        n = self.n[kind]
+        return self.perm[kind][rng.randrange(n // 2, n)]
 
 
 class Doc(object):
@@ -77,10 +105,31 @@ class Doc(object):
 def gen_catalog(rng, total, kinds=None, e2e=False):
     """cfg + doc lines.  total=True: every document has a (non-empty) value in every index.
     e2e=True: facet and text indexes are model-backed in the driver (hierarchical facets, query strings)."""
+    return gen_catalog_x(rng, total, kinds, e2e)[:3]
+
+
+def pair_kinds(rng):
+    """kinds for a `twocat` catalog: the indexes 2j and 2j+1 have the same kind (they get the same NAME in two
+    different catalogs)"""
+    ks = []
+    for _ in range(rng.choice([1, 1, 2])):
+        k = rng.choice(["field", "field", "keyword", "facet", "text"])
+        ks += [k, k]
+    if rng.random() < 0.3:
+        ks.append(rng.choice(["field", "keyword"]))
+    return ks
+
+
+def gen_catalog_x(rng, total, kinds=None, e2e=False, ndocs=None, dist=None, twocat=False, idrange=40):
+    """gen_catalog with the knobs of the large / wide / two-catalog modes; returns (kinds, cfg, docs, dist).
+    twocat: index i is registered in catalog i % 2 under the name n<i // 2> - two catalogs whose indexes carry
+    the same names (the driver ignores the line: to the model they are simply different indexes)"""
     nidx = rng.randrange(1, 5)
     if kinds is None:
         kinds = [rng.choice(["field", "field", "keyword", "facet", "text"]) for _ in range(nidx)]
     cfg = [["cfg", "family", 64]]
+    if twocat:
+        cfg.append(["cfg", "twocat", 1])
     if e2e:
         cfg.append(["cfg", "e2e", 1])
         if "text" in kinds:
@@ -95,25 +144,28 @@ def gen_catalog(rng, total, kinds=None, e2e=False):
                     ["cfg", "dict", "queries"] + [enc(q) for q in QUERIES]]
         else:
             cfg.append(["cfg", "index", "keyword" if k == "facet" else k])
-    ndocs = rng.choice([0, 1, 2, 3, 5, 8, 12, 25])
+    if ndocs is None:
+        ndocs = rng.choice([0, 1, 2, 3, 5, 8, 12, 25])
     docs = []
-    ids = rng.sample(range(40), ndocs)
+    ids = rng.sample(range(max(idrange, ndocs)), ndocs)
     for d in ids:
         for i, k in enumerate(kinds):
             if not total and rng.random() < 0.2:
                 if rng.random() < 0.5:
                     docs.append(["doc", i, d, "none"])
                 continue        # else: not known to this index at all
-            docs.append(["doc", i, d] + doc_values(rng, k, total, e2e))
-    return kinds, cfg, docs
+            docs.append(["doc", i, d] + doc_values(rng, k, total, e2e, dist))
+    return kinds, cfg, docs, dist
 
 
-def gen_leaf(rng, kinds, admissible_p=0.93, e2e=False):
+def gen_leaf(rng, kinds, admissible_p=0.93, e2e=False, dist=None):
     i = rng.randrange(len(kinds))
     k = kinds[i]
     pool = {"field": FIELD_CMPS, "keyword": KW_CMPS, "facet": KW_CMPS, "text": TEXT_CMPS}[k]
     c = rng.choice(pool) if rng.random() < admissible_p else rng.choice(ALL_CMPS + ["inrange"])
     nvals = (NVALS_E2E if e2e else NVALS)[k]
+    if dist and k in dist.n:
+        nvals = dist.n[k]
     if c in ("inrange", "notinrange"):
         return ["range", 1 if c == "notinrange" else 0, i, rng.randrange(nvals), rng.randrange(nvals),
                 rng.randrange(2), rng.randrange(2)]
@@ -123,22 +175,188 @@ def gen_leaf(rng, kinds, admissible_p=0.93, e2e=False):
     return ["cmp", c, i, "one", rng.randrange(nvals)]
 
 
-def gen_tree(rng, kinds, depth, range_bias=0.0, allow_not=True, e2e=False):
+def gen_tree(rng, kinds, depth, range_bias=0.0, allow_not=True, e2e=False, dist=None):
     r = rng.random()
     if depth <= 0 or r < 0.3:
         if rng.random() < range_bias:
             fi = [i for i, k in enumerate(kinds) if k == "field"]
             if fi:
-                return ["cmp", rng.choice(["gt", "ge", "lt", "le"]), rng.choice(fi), "one", rng.randrange(10)]
-        return gen_leaf(rng, kinds, e2e=e2e)
+                return ["cmp", rng.choice(["gt", "ge", "lt", "le"]), rng.choice(fi), "one",
+                        rng.randrange(dist.n["field"] if dist else 10)]
+        return gen_leaf(rng, kinds, e2e=e2e, dist=dist)
     if allow_not and r < 0.42:
-        return ["not", gen_tree(rng, kinds, depth - 1, range_bias, allow_not, e2e)]
+        return ["not", gen_tree(rng, kinds, depth - 1, range_bias, allow_not, e2e, dist)]
     op = "and" if r < 0.72 else "or"
     n = rng.choice([1, 2, 2, 2, 3, 3, 4])
-    kids = [gen_tree(rng, kinds, depth - 1, range_bias, allow_not, e2e) for _ in range(n)]
+    kids = [gen_tree(rng, kinds, depth - 1, range_bias, allow_not, e2e, dist) for _ in range(n)]
     if rng.random() < 0.15 and kids:
         kids.append(kids[0])          # repeated operand
     return [op, kids]
+
+
+# --- generators aimed at size- and arity-dependent code paths, and at folds across indexes --------------------
+NEG_CMP = {"eq": "noteq", "noteq": "eq", "gt": "le", "le": "gt", "lt": "ge", "ge": "lt", "any": "notany",
+           "notany": "any", "all": "notall", "notall": "all", "contains": "notcontains", "notcontains": "contains"}
+WIDE_ARITIES = [9, 12, 15, 16, 17, 17, 18, 19, 20, 21, 23, 24, 25, 31, 32, 33, 33, 34, 40]
+
+
+def neg_tree(t):
+    """the tree hypatia's negate() gives (without flattening): same answer as Not(t) on a Total catalog"""
+    if t[0] == "cmp":
+        return ["cmp", NEG_CMP[t[1]], t[2], t[3], t[4]]
+    if t[0] == "range":
+        return ["range", 0 if t[1] else 1] + list(t[2:])
+    if t[0] == "not":
+        return t[1]
+    return ["or" if t[0] == "and" else "and", [neg_tree(k) for k in t[1]]]
+
+
+def _nv(kinds, i, e2e, dist):
+    k = kinds[i]
+    return dist.n[k] if dist and k in dist.n else (NVALS_E2E if e2e else NVALS)[k]
+
+
+def selective_leaf(rng, kinds, e2e, dist, rare=False):
+    """a leaf that matches FEW documents (one value, two values, a short range); rare: one of the rare values of
+    a skewed catalog"""
+    i = rng.randrange(len(kinds))
+    k = kinds[i]
+    n = _nv(kinds, i, e2e, dist)
+    val = (lambda: dist.rare(rng, k)) if rare and dist and dist.skew and k in dist.n else (lambda: rng.randrange(n))
+    r = rng.random()
+    if k == "text":
+        return ["cmp", rng.choice(["contains", "eq"]), i, "one", val()]
+    if r < 0.6:
+        return ["cmp", "eq", i, "one", val()]
+    if r < 0.8 or k != "field":
+        return ["cmp", "any", i, "many", [val() for _ in range(rng.choice([1, 2, 2, 3]))]]
+    lo = val()
+    return ["range", 0, i, lo, lo + rng.choice([0, 0, 1]), 0, 0]
+
+
+def broad_leaf(rng, kinds, e2e, dist, total):
+    """a leaf that matches MOST or MANY documents: open bounds (everything that has a value), bounds in the middle
+    and the frequent values of a skewed catalog (a large part - a later selective operand is then usually NOT a
+    subset), complements of frequent / of rare values"""
+    t = selective_leaf(rng, kinds, e2e, dist, rare=True)
+    i = t[2]
+    k = kinds[i]
+    r = rng.random()
+    skew = dist and dist.skew and k in dist.n
+    if k == "field" and r < 0.2:
+        n = _nv(kinds, i, e2e, dist)
+        return rng.choice([["cmp", "ge", i, "one", rng.randrange(0, 2)], ["cmp", "le", i, "one", n - 1 - rng.randrange(0, 2)],
+                           ["cmp", "gt", i, "one", -1], ["range", 0, i, 0, n, 0, 0]])
+    if k == "field" and r < 0.45:
+        n = _nv(kinds, i, e2e, dist)
+        m = rng.randrange(n // 4, 3 * n // 4 + 1)
+        return rng.choice([["cmp", "ge", i, "one", m], ["cmp", "lt", i, "one", m], ["cmp", "le", i, "one", m],
+                           ["range", rng.randrange(2), i, n // 4, m, 0, 1]])
+    if skew and r < 0.55:
+        return ["cmp", "any", i, "many", sorted(set(dist.frequent(rng, k) for _ in range(3)))]
+    if skew and r < 0.67:
+        # one frequent value: on a keyword index the answer IS the stored posting set (an operation that updated
+        # its bigger operand in place would corrupt the index for the queries that follow)
+        return rng.choice([["cmp", "eq", i, "one", dist.perm[k][0]], ["cmp", "eq", i, "one", dist.frequent(rng, k)],
+                           ["cmp", "all" if k != "field" else "eq", i, "many" if k != "field" else "one",
+                            [dist.perm[k][0]] if k != "field" else dist.perm[k][0]]])
+    if skew and r < 0.8:
+        return rng.choice([["cmp", "noteq", i, "one", dist.frequent(rng, k)],
+                           ["cmp", "notany", i, "many", [dist.frequent(rng, k), dist.rare(rng, k)]]])
+    # NotEq / NotAny / NotInRange of a selective leaf: the index's whole population minus a few (on a non-Total
+    # catalog that includes value-less documents: still an And/Or clause the specification determines)
+    return neg_tree(t)
+
+
+def present(rng, op, kids, total):
+    """one of the ways hypatia arrives at an n-ary And/Or over `kids`: the flat constructor call, nested
+    same-type groups (flattened by the constructor), and - on Total catalogs, where the specification determines
+    complements - Not over the dual node of the negated operands (expanded by negate())"""
+    r = rng.random()
+    if total and r < 0.25:
+        return ["not", ["or" if op == "and" else "and", [neg_tree(k) for k in kids]]]
+    if r < 0.5 and len(kids) >= 4:
+        out, j = [], 0
+        while j < len(kids):
+            g = rng.choice([1, 1, 2, 3, 5, 8])
+            grp = kids[j:j + g]
+            j += g
+            if len(grp) == 1:
+                out += grp
+            elif total and rng.random() < 0.2:
+                out.append(["not", ["or" if op == "and" else "and", [neg_tree(k) for k in grp]]])
+            else:
+                out.append([op, grp])
+        return [op, out]
+    return [op, list(kids)]
+
+
+def gen_wide(rng, kinds, total, e2e=False, dist=None):
+    """And / Or with 9-40 operands (around 16 and 32, mostly not powers of two): every operand of an Or is
+    selective, every operand of an And broad, so that each single operand matters for the answer"""
+    op = rng.choice(["and", "or"])
+    n = rng.choice(WIDE_ARITIES)
+    kids = []
+    for _ in range(n):
+        r = rng.random()
+        if r < 0.06:
+            kids.append(gen_tree(rng, kinds, 1, e2e=e2e, dist=dist, allow_not=total))
+        elif op == "or":
+            kids.append(selective_leaf(rng, kinds, e2e, dist))
+        else:
+            kids.append(broad_leaf(rng, kinds, e2e, dist, total))
+    if rng.random() < 0.1:
+        kids.append(kids[rng.randrange(len(kids))])
+    return present(rng, op, kids, total)
+
+
+def gen_skew(rng, kinds, total, e2e=False, dist=None):
+    """And / Or of 2-5 operands of very different sizes in random order (the small operand first, last, in the
+    middle): broad leaves and selective leaves over rare values"""
+    op = rng.choice(["and", "and", "or"])
+    stored = [i for i, k in enumerate(kinds) if k in ("keyword", "facet")]
+    if dist and dist.skew and stored and rng.random() < 0.25:
+        # the first operand's answer is a stored posting set (Eq / All of one frequent keyword), the operands after
+        # it are tiny: whatever combines them must not write into its bigger operand
+        i = rng.choice(stored)
+        v = dist.perm["keyword"][0] if kinds[i] == "keyword" else rng.randrange(_nv(kinds, i, e2e, dist))
+        first = rng.choice([["cmp", "eq", i, "one", v], ["cmp", "all", i, "many", [v]]])
+        op = rng.choice(["and", "or", "or"])
+        return [op, [first] + [selective_leaf(rng, kinds, e2e, dist, rare=True) for _ in range(rng.choice([1, 2, 3]))]]
+    nb, ns = rng.choice([(1, 1), (1, 1), (2, 1), (1, 2), (3, 1), (2, 2), (1, 0), (3, 2)])
+    kids = [broad_leaf(rng, kinds, e2e, dist, total) for _ in range(nb)] + \
+           [selective_leaf(rng, kinds, e2e, dist, rare=True) for _ in range(ns)]
+    if rng.random() < 0.6:
+        rng.shuffle(kids)
+    if rng.random() < 0.2:
+        kids.append(gen_tree(rng, kinds, 2, e2e=e2e, dist=dist, allow_not=total))
+    t = present(rng, op, kids, total)
+    if rng.random() < 0.2:
+        # one level up: the skewed node is itself an operand
+        t = [rng.choice(["and", "or"]), [broad_leaf(rng, kinds, e2e, dist, total), t]]
+    return t
+
+
+def gen_eqfold(rng, kinds, e2e=False, dist=None, allow_not=True):
+    """And / Or whose operands are all Eq (or all NotEq): the shape the optimiser folds into Any/All/NotAny/NotAll
+    when the operands address ONE index - here they address one index, or several indexes of the same kind
+    (with `twocat` catalogs: same-named indexes of two catalogs)"""
+    i = rng.randrange(len(kinds))
+    same = [j for j, k in enumerate(kinds) if k == kinds[i]]
+    c = rng.choice(["eq", "eq", "noteq"])
+    n = rng.choice([2, 2, 2, 3, 3, 4])
+    mixed = len(same) > 1 and rng.random() < 0.6
+    kids = []
+    for _ in range(n):
+        j = rng.choice(same) if mixed else i
+        kids.append(["cmp", c, j, "one", rng.randrange(_nv(kinds, j, e2e, dist))])
+    t = [rng.choice(["and", "or"]), kids]
+    r = rng.random()
+    if allow_not and r < 0.2:
+        t = ["not", neg_tree(t)]
+    elif r < 0.4:
+        t = [rng.choice(["and", "or"]), [t, gen_leaf(rng, kinds, e2e=e2e, dist=dist)]]
+    return t
 
 
 class Impl(object):
@@ -158,8 +376,11 @@ class Impl(object):
         self.family = fam
         self.e2e = any(c[1] == "e2e" for c in cfg)
         self.kinds = kinds or [c[2] for c in cfg if c[1] == "index"]
-        self.cat = Catalog(family=fam)
+        self.twocat = any(c[1] == "twocat" for c in cfg)
+        self.cats = [Catalog(family=fam), Catalog(family=fam)] if self.twocat else [Catalog(family=fam)]
+        self.cat = self.cats[0]
         self.idx = []
+        self.table = {}         # index -> {docid: value | None}: what was indexed (for the independent evaluation)
         for i, k in enumerate(self.kinds):
             attr = "a%d" % i
             if k == "field":
@@ -171,7 +392,11 @@ class Impl(object):
                                 family=fam)
             else:
                 ix = TextIndex(attr, family=fam)
-            self.cat["i%d" % i] = ix
+            if self.twocat:
+                # index i lives in catalog i % 2 under the name n<i // 2>: two catalogs, same index names
+                self.cats[i % 2]["n%d" % (i // 2)] = ix
+            else:
+                self.cat["i%d" % i] = ix
             self.idx.append(ix)
 
     def value(self, i, toks):
@@ -186,10 +411,39 @@ class Impl(object):
             return [FACET_PATHS[t] for t in toks]
         return ["k%d" % t for t in toks]
 
+    def xbuild(self, t, names):
+        """a query over exotic constants (see the section at the end of this module); fills `names`"""
+        from hypatia import query as Q
+        from hypatia.query import Name
+        if t[0] == "not":
+            return Q.Not(self.xbuild(t[1], names))
+        if t[0] in ("and", "or"):
+            return (Q.And if t[0] == "and" else Q.Or)(*[self.xbuild(k, names) for k in t[1]])
+        i = t[2]
+        conv = lambda x: self.const(i, x)       # noqa: E731
+        sfx = "_" + self.kinds[i][0]
+        if t[0] == "range":
+            _, neg, _, lo, hi, el, eh = t
+            return (Q.NotInRange if neg else Q.InRange)(self.idx[i], xparse_val(lo, names, conv, sfx),
+                                                        xparse_val(hi, names, conv, sfx), bool(el), bool(eh))
+        _, c, _, tag, v = t
+        if tag == "one":
+            val = xparse_val(v, names, conv, sfx)
+        else:
+            val = [xparse_val(x, names, conv, sfx) for x in v]
+            if tag == "manyt":
+                val = tuple(val)
+            elif tag == "manyn":
+                key = "c%d" % len(names)
+                names[key] = val
+                val = Name(key)
+        return getattr(Q, CLASSNAME[c])(self.idx[i], val)
+
     def doc(self, c):
         i, d = c[1], c[2]
         o = Doc()
         v = self.value(i, list(c[3:]))
+        self.table.setdefault(i, {})[d] = v
         if v is not None:
             setattr(o, "a%d" % i, v)
         self.idx[i].index_doc(d, o)
@@ -274,7 +528,7 @@ def flat_tokens(t):
     """tokens of a generated (pre-construction) tree – only used for display"""
     if t[0] == "cmp":
         _, c, i, tag, v = t
-        return ["cmp", c, i, tag] + ([len(v)] + list(v) if tag == "many" else [v])
+        return ["cmp", c, i, tag] + ([len(v)] + list(v) if tag != "one" else [v])
     if t[0] == "range":
         return list(t)
     if t[0] == "not":
@@ -294,7 +548,7 @@ def parse_tokens(toks):
             if tag == "one":
                 return ["cmp", c, ix, "one", toks[i + 4]], i + 5
             n = toks[i + 4]
-            return ["cmp", c, ix, "many", list(toks[i + 5:i + 5 + n])], i + 5 + n
+            return ["cmp", c, ix, tag, list(toks[i + 5:i + 5 + n])], i + 5 + n
         if h == "range":
             return ["range"] + list(toks[i + 1:i + 7]), i + 7
         if h == "not":
@@ -319,3 +573,307 @@ def run_ids(fn):
         return idset(ids)
     except Exception as e:
         return exc_name(e)
+
+
+# ======================================================================================================
+# exotic constants (implementation-vs-implementation stream of C05 `xopt` / C04 `xapply`)
+#
+# The Lean model's leaf constants are integers.  hypatia documents more: `hypatia.RangeValue` as the value of
+# Eq / NotEq / Any / NotAny on a field index, floats, tuples as containers of Any/All values, late-bound
+# `Name`s (also inside containers, also bound to a RangeValue or to a whole container).  For trees over such
+# constants the check compares execute(optimize=True), execute(optimize=False) and `xsem`, an independent
+# evaluation over the documents' values written here from the documentation of the comparators.
+#
+# value tokens: 7 | f2.5 | r2:4 rN:4 r2:N (RangeValue) | t2:4 (2-tuple, the legacy range form D13) |
+#               l2.4.6 (list as Eq constant, the legacy any-of form D13) | n3=<token> (Name('x3') bound to <token>)
+# container tags: one | many (list) | manyt (tuple) | manyn (Name bound to the whole list)
+# ======================================================================================================
+XFIELD_CMPS = ["eq", "eq", "noteq", "noteq", "gt", "ge", "lt", "le", "any", "notany", "inrange", "notinrange"]
+XKW_CMPS = ["eq", "eq", "noteq", "any", "notany", "all"]
+
+
+def xnum(s):
+    return None if s == "N" else float(s) if "." in s else int(s)
+
+
+def xparse_val(tok, names, conv, sfx=""):
+    """token -> Python constant; `conv` maps a plain token to the index's value space (field: number,
+    keyword: 'k<n>'); Names are registered in `names`"""
+    from hypatia import RangeValue
+    from hypatia.query import Name
+    if isinstance(tok, int):
+        return conv(tok)
+    if tok[0] == "n":
+        k, rest = tok[1:].split("=", 1)
+        # the name carries its binding (one name = one value within a query; the same name may occur twice)
+        # (and one value space: the suffix names the kind of index the constant is for)
+        key = "x%s_%s%s" % (k, rest, sfx)
+        names[key] = xparse_val(int(rest) if rest.lstrip("-").isdigit() else rest, names, conv)
+        return Name(key)
+    if tok[0] == "f":
+        return float(tok[1:])
+    if tok[0] == "r":
+        lo, hi = tok[1:].split(":")
+        return RangeValue(xnum(lo), xnum(hi))
+    if tok[0] == "t":
+        lo, hi = tok[1:].split(":")
+        return (xnum(lo), xnum(hi))
+    if tok[0] == "l":
+        return [int(x) for x in tok[1:].split(".")]
+    raise ValueError(tok)
+
+
+def xresolve(tok):
+    """the specification-side reading of a value token: ('v', number) | ('r', lo, hi) | ('l', [numbers])"""
+    if isinstance(tok, int):
+        return ("v", tok)
+    if tok[0] == "n":
+        rest = tok[1:].split("=", 1)[1]
+        return xresolve(int(rest) if rest.lstrip("-").isdigit() else rest)
+    if tok[0] == "f":
+        return ("v", float(tok[1:]))
+    if tok[0] in "rt":
+        lo, hi = tok[1:].split(":")
+        return ("r", xnum(lo), xnum(hi))
+    if tok[0] == "l":
+        return ("l", [int(x) for x in tok[1:].split(".")])
+    raise ValueError(tok)
+
+
+def xmatch(kind, docval, tok):
+    """does a document value satisfy `== constant` (documented reading: a RangeValue / 2-tuple constant on a
+    field index is a closed range with None = open end, a list constant is any-of)"""
+    r = xresolve(tok)
+    if kind != "field":
+        return r[0] == "v" and "k%d" % r[1] in docval      # keyword values are the strings k<n> (Impl.value)
+    if r[0] == "v":
+        return docval == r[1]
+    if r[0] == "r":
+        return (r[1] is None or r[1] <= docval) and (r[2] is None or docval <= r[2])
+    return docval in r[1]
+
+
+def xbound(tok):
+    r = xresolve(tok)
+    assert r[0] == "v", tok
+    return r[1]
+
+
+def xsem(t, kinds, table):
+    """independent evaluation of an exotic tree over the documents' values.  table[i] = {docid: value | None};
+    a complement is taken within the documents known to the leaf's index, Not by De Morgan down to the leaves
+    (what hypatia documents for negate())"""
+    if t[0] == "not":
+        return xsem(neg_tree(t[1]), kinds, table)
+    if t[0] in ("and", "or"):
+        sets = [xsem(k, kinds, table) for k in t[1]]
+        out = set(sets[0])
+        for s in sets[1:]:
+            out = (out & s) if t[0] == "and" else (out | s)
+        return out
+    i = t[2]
+    T = table.get(i, {})
+    known = set(T)
+    vals = {d: v for d, v in T.items() if v is not None}
+    k = kinds[i]
+    if t[0] == "range":
+        _, neg, _, lo, hi, el, eh = t
+        lo, hi = xbound(lo), xbound(hi)
+        pos = {d for d, v in vals.items() if (v > lo if el else v >= lo) and (v < hi if eh else v <= hi)}
+        return known - pos if neg else pos
+    _, c, _, tag, v = t
+    base = NEG_CMP[c] if c in ("noteq", "notany", "notall") else c
+    if base == "eq":
+        pos = {d for d, x in vals.items() if xmatch(k, x, v)}
+    elif base == "any":
+        pos = {d for d, x in vals.items() if any(xmatch(k, x, e) for e in v)}
+    elif base == "all":
+        pos = {d for d, x in vals.items() if all(xmatch(k, x, e) for e in v)}
+    else:
+        b = xbound(v)
+        pos = {d for d, x in vals.items() if {"gt": x > b, "ge": x >= b, "lt": x < b, "le": x <= b}[base]}
+    return known - pos if base != c else pos
+
+
+def xflatten(op, kids):
+    out = []
+    for k in kids:
+        out += k[1] if k[0] == op else [k]
+    return out
+
+
+def xconstruct(t):
+    """the tree the And/Or constructors build (same-type operands are promoted)"""
+    if t[0] in ("and", "or"):
+        return [t[0], xflatten(t[0], [xconstruct(k) for k in t[1]])]
+    if t[0] == "not":
+        return ["not", xconstruct(t[1])]
+    return t
+
+
+def xnegate(t):
+    """negate() of a constructed tree (And.negate builds Or(*negated) - flattening again)"""
+    if t[0] in ("and", "or"):
+        op = "or" if t[0] == "and" else "and"
+        return [op, xflatten(op, [xnegate(k) for k in t[1]])]
+    if t[0] == "not":
+        return t[1]
+    return neg_tree(t)
+
+
+def xfolds(t, out):
+    """the Eq / NotEq folds the optimiser performs on a constructed tree: (node op, comparator, index, leaves)"""
+    if t[0] == "not":
+        return xfolds(xnegate(t[1]), out)
+    if t[0] in ("and", "or"):
+        kids = t[1]
+        for c in ("eq", "noteq"):
+            if all(k[0] == "cmp" and k[1] == c and k[2] == kids[0][2] for k in kids):
+                out.append((t[0], c, kids[0][2], kids))
+                return out
+        for k in kids:
+            xfolds(k, out)
+    return out
+
+
+def xeffective(t, neg=False, out=None):
+    """(comparator after negation pushing, index) of every leaf"""
+    out = [] if out is None else out
+    if t[0] == "cmp":
+        out.append((NEG_CMP[t[1]] if neg else t[1], t[2]))
+    elif t[0] == "range":
+        out.append(("notinrange" if bool(t[1]) != neg else "inrange", t[2]))
+    elif t[0] == "not":
+        xeffective(t[1], not neg, out)
+    else:
+        for k in t[1]:
+            xeffective(k, neg, out)
+    return out
+
+
+def xlegacy(tok):
+    return not isinstance(tok, int) and xresolve(tok)[0] in ("l",) or \
+        (not isinstance(tok, int) and tok.split("=")[-1][0] == "t")
+
+
+def xhazards(t, kinds, has_none):
+    """recorded findings an exotic tree would run into (the stream stays away from them): D3 All/NotAll folds
+    on a field index, D2 effective NotAll, D5 lower+upper bounds on a field index with value-less documents;
+    D23: a fold over a legacy tuple/list Eq constant"""
+    hz = set()
+    for op, c, i, leaves in xfolds(xconstruct(t), []):
+        cls = {("or", "eq"): "any", ("and", "eq"): "all", ("and", "noteq"): "notany", ("or", "noteq"): "notall"}[(op, c)]
+        if kinds[i] == "field" and cls in ("all", "notall"):
+            hz.add("D3")
+        if kinds[i] != "field" and cls == "notall":
+            hz.add("D2")
+        if kinds[i] == "field" and any(xlegacy(k[4]) for k in leaves):
+            hz.add("D23")
+    eff = xeffective(t)
+    if any(c == "notall" for c, _ in eff):
+        hz.add("D2")
+    for i in set(i for _, i in eff):
+        if has_none.get(i) and any(c in ("lt", "le") and j == i for c, j in eff) and \
+                any(c in ("gt", "ge") and j == i for c, j in eff):
+            hz.add("D5")
+    return hz
+
+
+def gen_xvalue(rng, kind, legacy=False):
+    """one value token"""
+    if kind != "field":
+        x = rng.randrange(6)
+        return "n%d=%d" % (rng.randrange(4), x) if rng.random() < 0.3 else x
+    r = rng.random()
+    if legacy:
+        base = rng.choice(["t%d:%d" % (rng.randrange(5), rng.randrange(3, 10)),
+                           "l" + ".".join(str(rng.randrange(10)) for _ in range(rng.choice([1, 3])))])
+    elif r < 0.3:
+        base = rng.randrange(10)
+    elif r < 0.75:
+        lo, hi = rng.randrange(10), rng.randrange(10)
+        if rng.random() < 0.7 and lo > hi:
+            lo, hi = hi, lo
+        q = rng.random()
+        base = "r%s:%s" % ("N" if q < 0.15 else lo, "N" if 0.15 <= q < 0.3 else hi)
+    else:
+        base = "f%s" % rng.choice(["2.0", "2.5", "0.5", "7.5", "4.0", "-1.5", "9.5"])
+    if rng.random() < 0.25:
+        return "n%d=%s" % (rng.randrange(4), base)
+    return base
+
+
+def gen_xbound(rng):
+    r = rng.random()
+    base = rng.randrange(10) if r < 0.4 else "f%s" % rng.choice(["2.0", "2.5", "0.5", "7.5", "4.0", "-1.5", "9.5"])
+    return "n%d=%s" % (rng.randrange(4), base) if rng.random() < 0.25 else base
+
+
+def gen_xleaf(rng, kinds, i=None, c=None, legacy=False):
+    i = rng.randrange(len(kinds)) if i is None else i
+    k = kinds[i]
+    c = c or rng.choice(XFIELD_CMPS if k == "field" else XKW_CMPS)
+    if c in ("inrange", "notinrange"):
+        return ["range", 1 if c == "notinrange" else 0, i, gen_xbound(rng), gen_xbound(rng), rng.randrange(2),
+                rng.randrange(2)]
+    if c in ("gt", "ge", "lt", "le"):
+        return ["cmp", c, i, "one", gen_xbound(rng)]
+    if c in ("any", "notany", "all"):
+        tag = rng.choice(["many", "many", "manyt", "manyn"])
+        vals = [gen_xvalue(rng, k) for _ in range(rng.choice([1, 2, 2, 3]))]
+        if tag == "manyn":
+            # the whole container is late-bound: its elements are plain values (a bound value is not searched
+            # for further Names)
+            vals = [int(r) if isinstance(r, str) and r.lstrip("-").isdigit() else r
+                    for r in (v.split("=", 1)[1] if isinstance(v, str) and v[0] == "n" else v for v in vals)]
+        return ["cmp", c, i, tag, vals]
+    return ["cmp", c, i, "one", gen_xvalue(rng, k, legacy)]
+
+
+def gen_xtree(rng, kinds, depth=2, legacy=False):
+    """biased to what the optimiser rewrites: all-Eq / all-NotEq operand lists on one index (or on two indexes
+    of the same kind), Gt/Ge with Lt/Le pairs, Not above them"""
+    r = rng.random()
+    if depth <= 0 or r < 0.12:
+        return gen_xleaf(rng, kinds, legacy=legacy)
+    if r < 0.55:
+        i = rng.randrange(len(kinds))
+        same = [j for j, k in enumerate(kinds) if k == kinds[i]]
+        c = rng.choice(["eq", "eq", "noteq"])
+        mixed = len(same) > 1 and rng.random() < 0.3
+        kids = [gen_xleaf(rng, kinds, rng.choice(same) if mixed else i, c, legacy and n == 0)
+                for n in range(rng.choice([1, 2, 2, 3, 4]))]
+        t = ["or" if c == "eq" or rng.random() < 0.2 else "and", kids] if kinds[i] == "field" else \
+            [rng.choice(["and", "or"]), kids]
+        if rng.random() < 0.3:
+            t = ["not", neg_tree(t)] if rng.random() < 0.6 else ["not", t]
+        if rng.random() < 0.2:
+            t = [rng.choice(["and", "or"]), [t, gen_xtree(rng, kinds, depth - 1)]]
+        return t
+    if r < 0.7 and "field" in kinds:
+        i = rng.choice([j for j, k in enumerate(kinds) if k == "field"])
+        kids = [gen_xleaf(rng, kinds, i, rng.choice(["gt", "ge", "lt", "le"])) for _ in range(rng.choice([2, 2, 3]))]
+        if rng.random() < 0.3:
+            kids.insert(rng.randrange(len(kids) + 1), gen_xleaf(rng, kinds))
+        return [rng.choice(["and", "and", "or"]), kids]
+    if r < 0.8:
+        return ["not", gen_xtree(rng, kinds, depth - 1)]
+    return [rng.choice(["and", "or"]), [gen_xtree(rng, kinds, depth - 1) for _ in range(rng.choice([2, 2, 3]))]]
+
+
+def xfeatures(t):
+    toks = [str(x) for x in flat_tokens(t)]
+    f = set()
+    for x in toks:
+        if "=" in x and x[0] == "n":
+            f.add("name")
+            x = x.split("=", 1)[1]
+        if x[0] == "r" and ":" in x:
+            f.add("rangevalue")
+        elif x[0] == "f" and x[1:2].isdigit() or x[:2] == "f-":
+            f.add("float")
+        elif x[0] in "tl" and x[1:2].isdigit():
+            f.add("legacy-tuple/list")
+        elif x in ("manyt", "manyn"):
+            f.add("container-" + ("tuple" if x == "manyt" else "name"))
+    return sorted(f)
